@@ -231,7 +231,12 @@ def run_boot(seq_specs, soc, cfg, base, agg, key, label, via_main=False, sample=
             if exp == "skip":
                 agg.rej(key, "role-not-addressable-in-this-configuration", nontrivial=False)
                 return True
-            p = os.path.join(d, impl.odd_name(f"e{i}", "suit", key) if workdir is None else f"e{i}.suit")
+            if workdir is None and key % 3 == 1:
+                # every input is called envelope.suit, each in its own directory (one build directory per image)
+                os.makedirs(os.path.join(d, f"image{i}"), exist_ok=True)
+                p = os.path.join(d, f"image{i}", "envelope.suit")
+            else:
+                p = os.path.join(d, impl.odd_name(f"e{i}", "suit", key) if workdir is None else f"e{i}.suit")
             open(p, "wb").write(b)
             files.append(p)
             if expect_reject is None:
